@@ -49,7 +49,7 @@ def _lab(r, *extra):
 
 
 PROPS["C05"] = {
-    "theorem_modules": ["Sidetree.Props.C05"],
+    "theorem_modules": ["Sidetree.Props.C05", "Sidetree.Props.C05Num"],
     "prescribes": "Sidetree.jcs / Sidetree.transform (Props.C05: normalize_obj_sorted, member_order_irrelevant, escape_minimal, es6Notation)",
     "obligations": [{"name": "Shape_Jcs", "facts": "module:Jcs"}, 
         {"name": "C05_fixedRange", "facts": ["es6FixedRange"]},
@@ -651,7 +651,7 @@ def _c17_property(r):
     return None
 
 PROPS["C17"] = {
-    "theorem_modules": ["Sidetree.Props.C17", "Sidetree.Props.C17Vdr", "Sidetree.Props.C17Reports", "Sidetree.Props.C17Process"],
+    "theorem_modules": ["Sidetree.Props.C17", "Sidetree.Props.C17Vdr", "Sidetree.Props.C17Reports", "Sidetree.Props.C17Process", "Sidetree.Props.C17ProcessNum"],
     "prescribes": "Sidetree.Did.resolve / processOperation (Props.C17)",
     "obligations": [{"name": "Shape_Did", "facts": "module:Did"}, {"name": "C17_defaultProtocol", "facts": ["defaultProtocol"]}] + _PARSER_OBL +
                    [{"name": "Shape_Transformer", "facts": "module:Transformer"}, {"name": "Shape_Client", "facts": "module:Client"}],
@@ -784,7 +784,7 @@ def _c08_label(r):
 
 
 PROPS["C08"] = {
-    "theorem_modules": ["Sidetree.Props.C08"],
+    "theorem_modules": ["Sidetree.Props.C08", "Sidetree.Props.C08Window"],
     "prescribes": "Sidetree.Client.new*Request / anchoredJson (Props.C08)",
     "obligations": [{"name": "Shape_Client", "facts": "module:Client"}, {"name": "Shape_Keys", "facts": "module:Keys"}] + _PARSER_OBL + _APPLIER_OBL,
     "streams": [{"gen": "C08", "quick": 1500, "thorough": 60000}],
